@@ -50,6 +50,24 @@ Theorem C01_reset_keeps_collections : forall srt n w d,
 Proof. exact resets_preserve_derivations. Qed.
 Print Assumptions C01_reset_keeps_collections.
 
+(* further spaces: legacy MultiGrid / HexSingleGrid / HexMultiGrid / NetworkGrid / ContinuousSpace and the experimental
+   ContinuousSpace.  The documented first-agent fall-back as a constructor of its own: it yields the model's generator
+   exactly when the legacy space holds an agent ... *)
+Theorem C01_legacy_fallback_spec : forall l, legacy_fallback l = MODEL_GEN <-> l <> [].
+Proof. exact legacy_fallback_spec. Qed.
+Print Assumptions C01_legacy_fallback_spec.
+
+(* ... so `space.agents` of a legacy space carries model.random iff the space is not empty (wf_term excludes exactly the
+   empty legacy space), and of an experimental ContinuousSpace the generator the space was built with; both are covered
+   by C01_gen_propagates / C01_gen_refines_spec / C01_gen_propagates_history / C01_gen_of_source through TXAgents *)
+Theorem C01_space_agents_gen : forall w s x,
+  znth (w_xspaces w) s = Some x ->
+  eval w (TXAgents s) = Ok {| members := xs_members x; gen := xs_agents_gen x |} /\
+  (xs_legacy x = true -> (xs_agents_gen x = MODEL_GEN <-> xs_members x <> [])) /\
+  (xs_legacy x = false -> xs_agents_gen x = xs_gen x).
+Proof. exact xagents_gen_spec. Qed.
+Print Assumptions C01_space_agents_gen.
+
 (* the observable is sharp: the unseeded fall-back IS seen *)
 Theorem C01_unseeded_is_visible : forall w d c, eval w (TNew d false) = Ok c -> gen c = OTHER_GEN.
 Proof. exact unseeded_is_visible. Qed.
@@ -153,7 +171,9 @@ Definition ex_world : world :=
                    {| a_id := 4; a_cls := 0; a_key := 5 |} ];
      w_next := 5; w_sgen := MODEL_GEN;
      w_cells := [(0, [1]); (1, []); (2, [2; 4]); (3, [])]; w_conn := [(0, [1; 2]); (1, [0; 3]); (2, [0; 3]); (3, [1; 2])];
-     w_lw := 2; w_lh := 2; w_lgrid := [((0, 1), 2)]; w_cutoff := 13 |}.
+     w_lw := 2; w_lh := 2; w_lgrid := [((0, 1), 2)]; w_cutoff := 13;
+     w_xspaces := [ {| xs_legacy := true; xs_keyed := true; xs_single := false; xs_gen := OTHER_GEN; xs_items := [] |};      (* a MultiGrid *)
+                    {| xs_legacy := false; xs_keyed := false; xs_single := false; xs_gen := MODEL_GEN; xs_items := [] |} ]  (* an experimental ContinuousSpace *) |}.
 
 Example C01_example_gen :
   seeded_space ex_world /\
@@ -196,6 +216,16 @@ Proof.
   eapply perm_trans; [apply Permutation_app_comm|]. cbn.
   apply perm_skip. eapply perm_trans; [apply perm_swap|]. apply perm_skip. apply Permutation_refl.
 Qed.
+
+Example C01_example_spaces :
+  let ops := [Derive (TXAgents 0); XPlace 0 2 3; XPlace 0 1 1; XPlace 0 4 3; Derive (TSort (TXAgents 0) true);
+              XCreate 1 7; XCreate 1 0; Derive (TShuffle (TXAgents 1) [1; 0]); XRemove 0 1; Remove 5; Derive (TXAgents 1);
+              MoveToEmpty 4 [] 0 []; Derive (TXAgents 7)] in
+  run_ops true ex_world ops =
+    [[1]; [-2]; [0; 1]; [0; 1; 4]; [0; 1; 4]; [0; 5]; [0; 5; 6]; [0; 6; 5]; [0; 4]; [0; 1; 2; 4; 6]; [0; 6]; [-2]; [-2]] /\
+  wf_term (final true ex_world ops) (TXAgents 0) /\ wf_term (final true ex_world ops) (TXAgents 1) /\
+  ~ wf_term ex_world (TXAgents 0).
+Proof. vm_compute. repeat split; try congruence; try (intros H; apply H; reflexivity). Qed.
 
 Example C01_example_choices :
   let ops := [ShuffleDo (TByType 0) [1; 0]; RandomCell (CNbhd 0 false) 1; RandomAgent CAll 2; SelectRandomEmpty 1;
@@ -264,6 +294,20 @@ Theorem C01_source_reset_rng_is_model : forall rng seed cur std_ok np_ok dn ds,
   Some (@None (option Z), @None (option Z), Some (m_reset_rng rng), @None (option Z)).
 Proof. exact reset_rng_bridge. Qed.
 Print Assumptions C01_source_reset_rng_is_model.
+
+(* the boundary: seed= and rng= both given is rejected (ValueError) before any generator is created, and that is the
+   only rejected combination *)
+Theorem C01_both_given_rejected_of_source : forall seed rng std_ok np_ok dn ds cur,
+  gen_model_init seed rng std_ok np_ok dn ds cur = None <-> (seed <> None /\ rng <> None).
+Proof. exact both_given_rejected_of_source. Qed.
+Print Assumptions C01_both_given_rejected_of_source.
+
+(* Agent.random / Agent.rng read model.random / model.rng at every access (properties, nothing cached in __init__): the
+   agents of a model always draw from the model's CURRENT generators, also after reset_rng re-bound model.rng *)
+Theorem C01_agent_generators_are_models_of_source :
+  gen_agent_random_is_models = true /\ gen_agent_rng_is_models = true.
+Proof. vm_compute. split; reflexivity. Qed.
+Print Assumptions C01_agent_generators_are_models_of_source.
 
 Theorem C01_source_init_skeleton : gen_model_init_skeleton_ok = true.
 Proof. vm_compute. reflexivity. Qed.
